@@ -12,8 +12,11 @@ pub fn gen_c16(seed: u64, tier: &str) -> Value {
     let mut r = Rng::derive(seed, "work");
     let procs = gen_procs(&mut r, 2, true);
     let mut arm = serde_json::Map::new();
+    // a quarter of the runs start cleanly: nothing fails, so the three subsystems report ready within the same few
+    // scheduler turns of each other (their reports overlap; which one lands first is the schedule's choice)
+    let clean_start = r.chance(1, 4);
     // redirector: 0..5 failures before success, or failing for good (>= 5 attempts)
-    match r.below(6) {
+    match if clean_start { 0 } else { r.below(6) } {
         0 => {}
         1 => {
             arm.insert("aya.load_file".into(), json!(1 + r.below(4)));
@@ -33,7 +36,7 @@ pub fn gen_c16(seed: u64, tier: &str) -> Value {
         }
     }
     // listener: AddrInUse 0..6 times (6 = fails for good), or another bind error
-    match r.below(6) {
+    match if clean_start { 0 } else { r.below(6) } {
         0 | 1 => {}
         2 | 3 => {
             arm.insert("bind_in_use.127.0.0.1:3080".into(), json!(1 + r.below(5)));
@@ -46,7 +49,7 @@ pub fn gen_c16(seed: u64, tier: &str) -> Value {
         }
     }
     // host behaviour
-    let host_mode = r.below(6);
+    let host_mode = if clean_start { r.below(4) } else { r.below(6) };
     let initial_doc = match host_mode {
         0 => doc_v1("disabled"),
         1 => doc_v1(*r.pick(&["wireserver", "wireserverandimds"])),
@@ -113,6 +116,14 @@ pub fn gen_c16(seed: u64, tier: &str) -> Value {
     steps.push(json!({"t": "provision_queries", "queries": [{"at_ms": 0, "tick": {"raw": "1"}, "notify": false, "metadata": true, "id": 1000}], "jumps": [], "final": true}));
     let mut knobs = gen_knobs(&mut r, true);
     knobs["net.connect_lat_max_ms"] = json!(*r.pick(&[0u64, 1, 3]));
+    if clean_start {
+        // two of the tasks that report readiness (or serve the reports) are the slow ones of this run: whatever they do
+        // in several steps is stretched over the others' reports
+        knobs["sched.profile"] = json!(1);
+        knobs["sched.victim_a"] = json!(r.below(14));
+        knobs["sched.victim_b"] = json!(r.below(14));
+        knobs["sched.victim_ms"] = json!(1 + r.below(6));
+    }
     json!({
         "scenario": "provision:C16", "seed": seed, "family": "provision", "prop": "C16",
         "knobs": knobs, "procs": procs, "users": users_json(), "steps": steps, "oracles": ["C16"],
